@@ -26,9 +26,9 @@ class _Lib(object):
         self.lib = None
 
     def load(self):
-        path = _build.build()
-        if self.lib is not None and path == self.path:
+        if self.lib is not None:
             return self.lib
+        path = _build.build()
         lib = ctypes.CDLL(path)
         self.path = path
         self.lib = lib
